@@ -102,6 +102,9 @@ def sentinel_schema():
     s.add(namegen.T("oct8", "type", prim="uint8", minv="010", maxv="0177", desc="C:\\new\\table"))
     s.add(namegen.T("oct64", "type", prim="int64", presence="optional", minv="-017", maxv="017", nullv="-0"))
     s.add(namegen.T("e", "enum", prim="uint16", values=[namegen.V("ten", "010", "\\v"), namegen.V("one", "01")]))
+    # control characters directly followed by octal digits (variable-width octal escapes would swallow the digit)
+    s.add(namegen.T("ctl", "type", prim="uint8", desc="one of:\n1 = Buy\n2 = Sell", semtype="tab\t7"))
+    s.add(namegen.T("ctl2", "enum", prim="uint8", values=[namegen.V("a", "1", "\x7f0"), namegen.V("b", "2", "\x017")], desc="\r3"))
     m = namegen.M("M", 1, desc="\\60")
     m.fields.append(namegen.F("a", 1, "oct8", desc="\\n"))
     s.messages.append(m)
